@@ -227,3 +227,154 @@ def k_day_new(eng):
 
     r = run_kernel(eng, "02.b/B/day-new", "02.b", "day 0..40 against any month length 0..31", build, None, replay)
     return _finish(r, holder["ctx"]) if "ctx" in holder else r
+
+
+class Mon:
+    def __init__(self, off):
+        self.off = off
+
+
+def k_solar_to_lunar(eng):
+    """SolarDay::get_lunar_day: walk back from the lunar month that carries the civil month's number to the month containing the date.
+    Months are objects on the month line (stepping: 11.e) with first-day numbers F(k) that tile (the length of month k is F(k+1) - F(k):
+    C03's data clause, assumed); contract: the month after the starting one begins after the date (lunar month m begins on or after
+    the 21st of civil month m).  Decides: the reported lunar day is (month containing the date, day number - first day + 1) — the
+    inverse of LunarDay::get_solar_day (02.c2) — so both round trips and 'consecutive civil days map to consecutive lunar days'
+    hold wherever the contract does."""
+    from .seasons import DayV
+    from .objmodel import JD
+    holder = {}
+
+    def build(eng):
+        fn = M.find_fn(eng.fns, "get_lunar_day", "&SolarDay")
+        ctx = _ctx(eng, {})
+        ctx.max_unroll = 5
+        rec = Rec(ctx, "self", "SolarDay")
+        O = ctx.fresh_value("day_number", "isize")
+        cy = ctx.fresh_value("civil_year", "isize")
+        cm = ctx.fresh_value("civil_month", "usize")
+        F = {o: ctx.fresh_value("first_day_of_month_%s%d" % ("p" if o >= 0 else "m", abs(o)), "isize") for o in range(-5, 3)}
+        ident = {}
+        holder.update(ctx=ctx)
+        model = ctx.model
+        base = model.call
+
+        def call(c, fr, callee, args, path):
+            a = [model.deref(c, x) for x in args]
+            if callee == "SolarDay::get_year" and a[0] is rec:
+                return True, cy
+            if callee == "SolarDay::get_month" and a[0] is rec:
+                return True, cm
+            if callee == "LunarMonth::from_ym":
+                path.start_args = (a[0], a[1])
+                return True, Mon(0)
+            if a and isinstance(a[0], Mon):
+                o = a[0].off
+                if o not in F or o + 1 not in F:
+                    raise Unsupported("walk left the modelled window")
+                if callee == "LunarMonth::get_first_julian_day":
+                    return True, JD(F[o])
+                if callee == "<LunarMonth as Tyme>::next" and isinstance(a[1], T) and a[1].c is not None:
+                    return True, Mon(o + a[1].c)
+                if callee == "LunarMonth::get_day_count":
+                    return True, T("(- %s %s)" % (F[o + 1].s, F[o].s), "Int")
+                if callee in ("LunarMonth::get_year", "LunarMonth::get_month_with_leap"):
+                    key = (callee, o)
+                    if key not in ident:
+                        ident[key] = c.fresh_value("%s_of_month_%d" % (callee.split("::")[1], o), "isize")
+                    return True, ident[key]
+            if callee == "JulianDay::get_solar_day" and a and isinstance(a[0], JD):
+                return True, DayV(a[0].t)
+            if callee == "SolarDay::subtract" and a[0] is rec and isinstance(a[1], DayV):
+                return True, T("(- %s %s)" % (O.s, a[1].t.s), "Int")
+            return base(c, fr, callee, args, path)
+        model.call = call
+        paths = ctx.run(fn, [("refrec", rec)])
+        pre = ["(<= 1 %s 9999)" % cy.s, "(<= 1 %s 12)" % cm.s, "(<= 1721424 %s 5373484)" % O.s]
+        for o in range(-4, 3):
+            pre.append("(<= 29 (- %s %s) 30)" % (F[o].s, F[o - 1].s))
+        pre += ["(< %s %s)" % (O.s, F[1].s), "(>= %s %s)" % (O.s, F[-3].s)]
+
+        def shape(p):
+            if getattr(p, "cut", False):
+                return None
+            if not p.calls or p.calls[-1][0] != "LunarDay::from_ymd" or p.ret is not p.calls[-1][2]:
+                return "result is not built by LunarDay::from_ymd"
+            return None
+
+        def posts(p):
+            if getattr(p, "cut", False):
+                return []
+            sa = getattr(p, "start_args", None)
+            y2, m2, d2 = p.calls[-1][1]
+            # which month did the walk end in: the one whose identifiers are handed on
+            j = None
+            for (callee, o), v in ident.items():
+                if callee == "LunarMonth::get_year" and v is y2:
+                    j = o
+            if j is None or ident.get(("LunarMonth::get_month_with_leap", j)) is not m2:
+                return [("month-identifiers", "false")]
+            out = [("contains", "(and (<= %s %s) (< %s %s))" % (F[j].s, O.s, O.s, F[j + 1].s)), ("day", "(= %s (+ (- %s %s) 1))" % (d2.s, O.s, F[j].s))]
+            if sa is not None and isinstance(sa[0], T) and isinstance(sa[1], T):
+                out.append(("start", "(and (= %s %s) (= %s %s))" % (sa[0].s, cy.s, sa[1].s, cm.s)))
+            return out
+        return ctx, paths, pre, posts, shape
+
+    def replay(eng, model):
+        nat = eng.native("roundtrip_scan")
+        if nat in ("NONE", "PANIC", "UNKNOWN", ""):
+            return nat == "PANIC", "native scan: " + (nat or "no output")
+        return True, "civil -> lunar -> civil is not the identity: " + nat
+
+    r = run_kernel(eng, "02.c/B/solar-to-lunar", "02.c", "every date; month starts any tiling table with lengths 29..30; the month after the starting one begins after the date; walk bound 5 proved",
+                   build, None, replay)
+    return _finish(r, holder["ctx"]) if "ctx" in holder else r
+
+
+def k_lunar_to_solar(eng):
+    """LunarDay::get_solar_day = (first day number of its month) + day - 1, through the one-slot cache (empty cache)"""
+    from .seasons import DayV
+    from .objmodel import JD
+    holder = {}
+
+    def build(eng):
+        fields = struct_fields(os.path.join(REPO, "src/tyme/lunar.rs"), "LunarDay")
+        fn = M.find_fn(eng.fns, "get_solar_day", "&LunarDay")
+        ctx = _ctx(eng, {})
+        rec = Rec(ctx, "self", "LunarDay")
+        day = rec.field(fields.index("day"), "usize")
+        X = ctx.fresh_value("first_day_of_month", "isize")
+        cell = {"content": Variant("None", None)}
+        holder.update(ctx=ctx)
+        model = ctx.model
+        base = model.call
+
+        def call(c, fr, callee, args, path):
+            a = [model.deref(c, x) for x in args]
+            if callee.startswith("RefCell::<") and callee.endswith("::borrow"):
+                return True, ("cellref",)
+            if callee.startswith("<Ref<") and callee.endswith("as Deref>::deref"):
+                return True, cell["content"]
+            if callee.endswith("::is_none") and isinstance(a[0], Variant):
+                return True, M.B(a[0].name == "None")
+            if callee.startswith("RefCell::<") and callee.endswith("::replace"):
+                old = cell["content"]
+                cell["content"] = a[1]
+                return True, old
+            if callee.endswith("::unwrap") and isinstance(a[0], Variant) and a[0].name == "Some":
+                return True, a[0].value
+            if callee == "LunarMonth::get_first_julian_day":
+                return True, JD(X)
+            if callee == "JulianDay::get_solar_day" and isinstance(a[0], JD):
+                return True, DayV(a[0].t)
+            return base(c, fr, callee, args, path)
+        model.call = call
+        paths = ctx.run(fn, [("refrec", rec)])
+        pre = ["(<= 1 %s 30)" % day.s, "(<= 1721424 %s 5373484)" % X.s]
+
+        def shape(p):
+            return None if isinstance(p.ret, DayV) else "result is not a day produced from the month's first day"
+        return ctx, paths, pre, (lambda p: [("day-number", "(= %s (+ %s %s (- 1)))" % (p.ret.t.s, X.s, day.s))]), shape
+
+    r = run_kernel(eng, "02.c2/B/lunar-to-solar", "02.c", "every month first day number, every day 1..30 (cache empty)", build, None, None)
+    return _finish(r, holder["ctx"]) if "ctx" in holder else r
